@@ -27,9 +27,11 @@
 EXTENDS Naturals, Sequences, FiniteSets, TLC
 
 CONSTANTS MaxLen,    \* longest Uri-Path (number of components) enumerated over the alphabet
+          LaterLen,  \* the same for the requests after the first one of a history
           MaxReq,    \* length of the request histories explored
           Guard,     \* BOOLEAN: implementation variant refuses a relative part starting with "/"
-          BlockLens  \* file lengths for the block-wise clause
+          BlockLens, \* file lengths for the block-wise clause
+          CheckBlocks \* BOOLEAN: evaluate ImplBlocksMeetContract at start-up (model-checking runs)
 
 Slash == "/"
 Dot   == "."
@@ -76,12 +78,13 @@ JoinC(u) == IF Len(u) = 0 THEN << >>
             ELSE IF Len(u) = 1 THEN u[1]
             ELSE u[1] \o <<Slash>> \o JoinC(Tail(u))          \* "/".join(u)
 
-RECURSIVE SplitFrom(_, _, _)
-SplitFrom(cs, i, cur) ==
-  IF i > Len(cs) THEN <<cur>>
-  ELSE IF cs[i] = Slash THEN <<cur>> \o SplitFrom(cs, i + 1, << >>)
-  ELSE SplitFrom(cs, i + 1, Append(cur, cs[i]))
-Segments(cs) == SplitFrom(cs, 1, << >>)                       \* cs.split("/")
+(* cs.split("/"), written without recursion over the characters (TLC's      *)
+(* evaluator would need a stack frame per character)                         *)
+SlashPos(cs) == {i \in 1..Len(cs) : cs[i] = Slash}
+Segments(cs) ==
+  LET B == SlashPos(cs) \cup {0, Len(cs) + 1}
+      Nth(k) == CHOOSE x \in B : Cardinality({y \in B : y < x}) = k - 1
+  IN [k \in 1..(Cardinality(B) - 1) |-> SubSeq(cs, Nth(k) + 1, Nth(k + 1) - 1)]
 
 HasSlash(c) == \E i \in 1..Len(c) : c[i] = Slash
 HasNul(c)   == \E i \in 1..Len(c) : c[i] = Nul
@@ -258,28 +261,34 @@ ImplBlock(content, n, szx) ==
       data == SubSeq(content, n * sz + 1, Min(Len(content), n * sz + sz + 1)) IN
   [n |-> n, ok |-> TRUE, more |-> Len(data) > sz, payload |-> SubSeq(data, 1, Min(sz, Len(data)))]
 
-RECURSIVE ImplFetch(_, _, _)
-ImplFetch(content, n, szx) ==
-  LET b == ImplBlock(content, n, szx) IN
-  IF b.more THEN <<b>> \o ImplFetch(content, n + 1, szx) ELSE <<b>>
+(* what a client collects that asks for block 0, 1, ... until 'more' is off *)
+ImplFetch(content, szx) ==
+  LET K == Len(content) \div BlockSize(szx) + 1
+      last == CHOOSE k \in 0..K : /\ ~ImplBlock(content, k, szx).more
+                                   /\ \A j \in 0..(k - 1) : ImplBlock(content, j, szx).more
+  IN [i \in 1..(last + 1) |-> ImplBlock(content, i - 1, szx)]
 
 ContentOf(L) == [i \in 1..L |-> (i * 7 + 3) % 251]
 
 ASSUME ImplBlocksMeetContract ==
+  CheckBlocks =>
   \A L \in BlockLens : \A szx \in 0..6 :
      C19_BlockwiseIdentical([content |-> ContentOf(L), szx |-> szx,
-                             blocks |-> ImplFetch(ContentOf(L), 0, szx)])
+                             blocks |-> ImplFetch(ContentOf(L), szx)])
 
 (* ------------------------------------------------------------------------ *)
 (* Requests and the state machine.                                           *)
 (* ------------------------------------------------------------------------ *)
-Alphabet == { << >>, DotSeg, DotDotSeg, nA, nD, <<"a", Slash, "b">>, <<"d", Slash, "f">>,
+(* "", ".", "..", "a", "d", "../a" (embedded slash leading out of the root),  *)
+(* "d/f" (embedded slash staying inside), "x\0", "e-acute"                  *)
+Alphabet == { << >>, DotSeg, DotDotSeg, nA, nD, <<Dot, Dot, Slash, "a">>, <<"d", Slash, "f">>,
               <<"x", Nul>>, nE }
 Lists(k) == UNION {[1..j -> Alphabet] : j \in 0..k}
 (* absolute probes: a leading empty component followed by the names of a     *)
 (* real directory (the temp directory, the root's parent, the root itself)   *)
 AbsProbes == {<< << >> >> \o p \o s : p \in {Base, Top, Root}, s \in Lists(2)}
-UriPaths == TLCEval(Lists(MaxLen) \cup AbsProbes)
+UriPaths   == TLCEval(Lists(MaxLen) \cup AbsProbes)
+LaterPaths == TLCEval(Lists(LaterLen) \cup AbsProbes)
 Methods == {"GET", "PUT", "DELETE", "POST", "FETCH"}
 (* conditional options: none; If-Match (ETag for GET) stale / current;      *)
 (* If-Match with the empty ETag; If-None-Match -- for the methods that look  *)
@@ -289,7 +298,11 @@ CondsOf(m) == CASE m = "GET"    -> {"none", "stale", "match"}
                 [] m = "PUT"    -> Conds
                 [] m = "DELETE" -> {"none", "stale", "any", "match"}
                 [] OTHER        -> {"none"}
-Requests == UNION {[m : {mm}, w : BOOLEAN, c : CondsOf(mm), u : UriPaths] : mm \in Methods}
+(* (operators with a parameter: TLC evaluates them where they are used, not  *)
+(* eagerly at start-up)                                                      *)
+RequestsOver(mm, paths) == [m : {mm}, w : BOOLEAN, c : CondsOf(mm), u : paths]
+RequestsOf(mm) == RequestsOver(mm, UriPaths)
+AllRequests(ms) == UNION {RequestsOf(mm) : mm \in ms}
 
 VARIABLES files,   \* existing regular files -> content tag
           last,    \* the last request with the model's response and effects (an observation)
@@ -307,7 +320,9 @@ Serve(r) ==
                    resp |-> out.resp, eff |-> out.eff, chg |-> Changed(files, out.fs)]
   /\ n' = n + 1
 
-Next == n < MaxReq /\ \E r \in Requests : Serve(r)
+Next == /\ n < MaxReq
+        /\ \E mm \in Methods :
+             \E r \in RequestsOver(mm, IF n = 0 THEN UriPaths ELSE LaterPaths) : Serve(r)
 Spec == Init /\ [][Next]_vars
 
 (* Only <<files, n>> decides what can happen next; `last' merely carries the   *)
